@@ -134,7 +134,7 @@ func typedConsts(files []*ast.File, ce *constEnv, pkg, typ string) [][2]string {
 	return res
 }
 
-func leanPairs(ps [][2]string, num bool) string {
+func storeLeanPairs(ps [][2]string, num bool) string {
 	q := make([]string, len(ps))
 	for i, p := range ps {
 		if num {
@@ -206,10 +206,10 @@ func genStoreFacts() {
 		if i == len(tlvFuncs)-1 {
 			sep = ""
 		}
-		l.p("  (%q, %s)%s", fn, leanPairs(recs, false), sep)
+		l.p("  (%q, %s)%s", fn, storeLeanPairs(recs, false), sep)
 	}
 	l.p("]")
-	l.p("def tlvTypes : List (String × Nat) := %s", leanPairs(typeNames, true))
+	l.p("def tlvTypes : List (String × Nat) := %s", storeLeanPairs(typeNames, true))
 	l.p("def accountStateVersionedMask : Nat := %s", intConst(cdb, "clientdb", "accountStateVersionedMask"))
 
 	// 3. states without LatestTx
@@ -228,22 +228,22 @@ func genStoreFacts() {
 			ps = append(ps, [2]string{name, intConst(acct, "account", name)})
 		}
 		l.p("/-- states in the empty `case` of `switch a.State` in %s (no LatestTx stored) -/", fn)
-		l.p("def noLatestTx_%s : List (String × Nat) := %s", fn, leanPairs(ps, true))
+		l.p("def noLatestTx_%s : List (String × Nat) := %s", fn, storeLeanPairs(ps, true))
 	}
 
 	// 4. enums
-	l.p("def accountStates : List (String × Nat) := %s", leanPairs(typedConsts(acctFiles, acct, "account", "State"), true))
-	l.p("def accountVersions : List (String × Nat) := %s", leanPairs(typedConsts(acctFiles, acct, "account", "Version"), true))
-	l.p("def orderTypes : List (String × Nat) := %s", leanPairs(typedConsts(ordFiles, ord, "order", "Type"), true))
-	l.p("def orderStates : List (String × Nat) := %s", leanPairs(typedConsts(ordFiles, ord, "order", "State"), true))
-	l.p("def orderVersions : List (String × Nat) := %s", leanPairs(typedConsts(ordFiles, ord, "order", "Version"), true))
-	l.p("def channelTypes : List (String × Nat) := %s", leanPairs(typedConsts(ordFiles, ord, "order", "ChannelType"), true))
-	l.p("def auctionTypes : List (String × Nat) := %s", leanPairs(typedConsts(ordFiles, ord, "order", "AuctionType"), true))
+	l.p("def accountStates : List (String × Nat) := %s", storeLeanPairs(typedConsts(acctFiles, acct, "account", "State"), true))
+	l.p("def accountVersions : List (String × Nat) := %s", storeLeanPairs(typedConsts(acctFiles, acct, "account", "Version"), true))
+	l.p("def orderTypes : List (String × Nat) := %s", storeLeanPairs(typedConsts(ordFiles, ord, "order", "Type"), true))
+	l.p("def orderStates : List (String × Nat) := %s", storeLeanPairs(typedConsts(ordFiles, ord, "order", "State"), true))
+	l.p("def orderVersions : List (String × Nat) := %s", storeLeanPairs(typedConsts(ordFiles, ord, "order", "Version"), true))
+	l.p("def channelTypes : List (String × Nat) := %s", storeLeanPairs(typedConsts(ordFiles, ord, "order", "ChannelType"), true))
+	l.p("def auctionTypes : List (String × Nat) := %s", storeLeanPairs(typedConsts(ordFiles, ord, "order", "AuctionType"), true))
 	l.p("def announcementConstraints : List (String × Nat) := %s",
-		leanPairs(typedConsts(ordFiles, ord, "order", "ChannelAnnouncementConstraints"), true))
+		storeLeanPairs(typedConsts(ordFiles, ord, "order", "ChannelAnnouncementConstraints"), true))
 	l.p("def confirmationConstraints : List (String × Nat) := %s",
-		leanPairs(typedConsts(ordFiles, ord, "order", "ChannelConfirmationConstraints"), true))
-	l.p("def nodeTiers : List (String × Nat) := %s", leanPairs(typedConsts(ordFiles, ord, "order", "NodeTier"), true))
+		storeLeanPairs(typedConsts(ordFiles, ord, "order", "ChannelConfirmationConstraints"), true))
+	l.p("def nodeTiers : List (String × Nat) := %s", storeLeanPairs(typedConsts(ordFiles, ord, "order", "NodeTier"), true))
 	l.p("def legacyLeaseDurationBucket : Nat := %s", intConst(ord, "order", "LegacyLeaseDurationBucket"))
 	l.p("end Pool.Gen.Store")
 }
